@@ -96,7 +96,7 @@ def probe(s, variant):
 
 def harnesses(tier, seed):
     hs, skipped = [], []
-    gr = schemas.leaf_schemas() + schemas.depth2(["int", "mix"] if tier == "quick" else None) + schemas.extras()
+    gr = schemas.leaf_schemas() + schemas.depth2(["int", "mix"] if tier == "quick" else None) + schemas.extras(tier)
     gr += [Schema("E_" + n, t, EXTRA_PRELUDE) for n, t in EXTRA]
     variants = ["d2020", "oapi"] if tier == "quick" else ["d2020", "d2020_refs", "oapi", "oapi_inline"]
     for s in gr:
